@@ -237,11 +237,18 @@ func (t *KernMethod) UnLockGovernTokens(ctx contract.KContext) (*contract.Respon
 		return nil, fmt.Errorf("unlock gov tokens failed, query account balance error")
 	}
 	amountLock := big.NewInt(0)
-	amountLock.SetString(string(amountBuf), 10)
+	_, isAmount := amountLock.SetString(string(amountBuf), 10)
+	if !isAmount || amountLock.Cmp(big.NewInt(0)) == -1 {
+		return nil, fmt.Errorf("unlock gov tokens failed, parse amount error")
+	}
 	// 解锁account balance amount
 	lockType := string(lockTypeBuf)
 	if lockType != utils.GovernTokenTypeOrdinary && lockType != utils.GovernTokenTypeTDPOS {
 		return nil, fmt.Errorf("unlock gov tokens failed, lock_type invalid: %s", lockType)
+	}
+	// 不能解锁超过已锁定的数量
+	if accountBalance.LockedBalance[lockType].Cmp(amountLock) == -1 {
+		return nil, fmt.Errorf("unlock gov tokens failed, amount exceeds locked balance")
 	}
 	accountBalance.LockedBalance[lockType] = accountBalance.LockedBalance[lockType].Sub(accountBalance.LockedBalance[lockType], amountLock)
 
